@@ -21,6 +21,11 @@ def _is_lib_result(ty):
     return e.get("k") == "adt" and e.get("path") == ERR
 
 
+def _carries_error(ty):
+    from .. import types
+    return types.contains(ty, lambda t: t.get("k") == "adt" and t.get("path") == ERR)
+
+
 def _uses(body, local):
     """(bb, kind, detail) for every use of a whole local"""
     out = []
@@ -83,6 +88,13 @@ def _flows_ok(body, local, seen, depth=0):
                 if dl is None:
                     return False, "transformed by %s into a projection" % k
                 okk, why = _flows_ok(body, dl, seen, depth + 1)
+                if not okk:
+                    return False, why
+                consumed = True
+                continue
+            # any other std combinator on the Result: not a swallow if its own result still carries the error type
+            if (info["krate"] in ("core", "std", "alloc")) and not t["dest"]["proj"] and _carries_error(t["dest"]["ty"]):
+                okk, why = _flows_ok(body, t["dest"]["local"], seen, depth + 1)
                 if not okk:
                     return False, why
                 consumed = True
